@@ -123,6 +123,64 @@ def instances(rng, batch=(), n=3, extended=False):
     return out
 
 
+def nested_instances(rng, batch=()):
+    """n = 6 = 3 x 2 operators whose public solve-type methods delegate to hooks (`_cholesky_solve`, `_solve`,
+    `_inv_matmul`) of OTHER classes: Chol over every triangular class, cholesky()/root_decomposition()-derived operators,
+    Block/BatchRepeat/SumBatch over these."""
+    import linear_operator.operators as O
+    b = tuple(batch)
+    out = []
+
+    def low(bb, n):
+        return _ival(rng, bb + (n, n), 0, 1).tril(-1) * 0.5 + torch.eye(n, dtype=F64) * 2
+
+    def psd(bb, n):
+        L = low(bb, n)
+        return L @ L.transpose(-1, -2)
+
+    def tri(n, bb=None):
+        return O.TriangularLinearOperator(low(b if bb is None else bb, n))
+
+    def kron():
+        return O.KroneckerProductLinearOperator(O.DenseLinearOperator(psd(b, 3)), O.DenseLinearOperator(psd(b, 2)))
+
+    def add(key, f):
+        try:
+            out.append((key, f()))
+        except Exception as e:
+            out.append((key, e))
+    add("Chol(KronTri)", lambda: O.CholLinearOperator(O.KroneckerProductTriangularLinearOperator(tri(3), tri(2))))
+    add("Chol(Kron.cholesky)", lambda: O.CholLinearOperator(kron().cholesky()))
+    add("Kron.root_decomposition", lambda: kron().root_decomposition())
+    add("Kron.cholesky", lambda: kron().cholesky())
+    add("Kronecker", kron)
+    add("KroneckerTriangular", lambda: O.KroneckerProductTriangularLinearOperator(tri(3), tri(2)))
+    add("KroneckerAddedDiag", lambda: O.KroneckerProductAddedDiagLinearOperator(
+        kron(), O.ConstantDiagLinearOperator(torch.full(b + (1,), 2.0, dtype=F64), diag_shape=6)))
+    add("SumKronecker", lambda: O.SumKroneckerLinearOperator(kron(), kron()))
+    add("Dense.root_decomposition", lambda: O.DenseLinearOperator(psd(b, 6)).root_decomposition())
+    add("Chol(Dense.cholesky)", lambda: O.CholLinearOperator(O.DenseLinearOperator(psd(b, 6)).cholesky()))
+    add("Chol(Tri(BlockDiag))", lambda: O.CholLinearOperator(O.TriangularLinearOperator(
+        O.BlockDiagLinearOperator(O.DenseLinearOperator(low(b + (2,), 3))))))
+    add("Tri(BlockDiag)", lambda: O.TriangularLinearOperator(O.BlockDiagLinearOperator(O.DenseLinearOperator(low(b + (2,), 3)))))
+    add("Chol(Diag)", lambda: O.CholLinearOperator(O.DiagLinearOperator(_posdiag(rng, b + (6,)))))
+    add("Chol(Diag.cholesky)", lambda: O.CholLinearOperator(O.DiagLinearOperator(_posdiag(rng, b + (6,))).cholesky()))
+    add("BatchRepeat(Chol(KronTri))", lambda: O.BatchRepeatLinearOperator(
+        O.CholLinearOperator(O.KroneckerProductTriangularLinearOperator(tri(3), tri(2))), batch_repeat=torch.Size((2,))))
+    add("BlockDiag(Chol)", lambda: O.BlockDiagLinearOperator(O.CholLinearOperator(tri(3, b + (2,)))))
+    add("BlockInterleaved(Chol)", lambda: O.BlockInterleavedLinearOperator(O.CholLinearOperator(tri(3, b + (2,)))))
+    add("SumBatch(Chol)", lambda: O.SumBatchLinearOperator(O.CholLinearOperator(tri(6, b + (2,)))))
+    add("BlockDiag(Kron.chol)", lambda: O.BlockDiagLinearOperator(O.CholLinearOperator(O.KroneckerProductTriangularLinearOperator(
+        tri(3, b + (2,)), O.TriangularLinearOperator(low(b + (2,), 1))))))
+    add("Diag", lambda: O.DiagLinearOperator(_posdiag(rng, b + (6,))))
+    add("ConstantDiag", lambda: O.ConstantDiagLinearOperator(_posdiag(rng, b + (1,)), diag_shape=6))
+    add("Identity", lambda: O.IdentityLinearOperator(6, batch_shape=torch.Size(b), dtype=F64))
+    add("KroneckerDiag", lambda: O.KroneckerProductDiagLinearOperator(
+        O.DiagLinearOperator(_posdiag(rng, b + (3,))), O.DiagLinearOperator(_posdiag(rng, b + (2,)))))
+    add("AddedDiag(Chol)", lambda: O.AddedDiagLinearOperator(O.CholLinearOperator(tri(6)), O.DiagLinearOperator(_posdiag(rng, b + (6,)))))
+    return out
+
+
 def _prod(t):
     r = 1
     for x in t:
@@ -164,6 +222,11 @@ def matmul_kinds(shape, side="right"):
         ("innerX-other", mat((), oth)) if oth != k else None,
         ("innerX-vecother", (oth,)) if oth != k else None,
         ("innerX-double", mat((), 2 * k)),
+        ("innerX-triple", mat((), 3 * k)),
+        ("innerX-half", mat((), k // 2)) if k % 2 == 0 and k > 2 else None,
+        ("innerX-vecdouble", (2 * k,)),
+        ("innerX-vechalf", (k // 2,)) if k % 2 == 0 and k > 2 else None,
+        ("innerX-batchdouble", mat(B, 2 * k)) if B else None,
         ("innerX-zero", mat((), 0)),
     ]
     if B:
@@ -357,7 +420,8 @@ def mk_index(idx):
 # --------------------------------------------------------------------------------------------------
 # one case = (class key, batch, op, kind, operand description) -> impl verdict, torch verdict, model line
 # --------------------------------------------------------------------------------------------------
-MM_OPS = ["matmul", "rmatmul", "solve", "inv_quad", "iql", "matmul-Op"]
+MM_OPS = ["matmul", "rmatmul", "solve", "solve-left", "fsolve", "fsolve-left", "inv_quad", "iql", "sqrt_inv_matmul", "sqrt_inv_matmul-left", "matmul-Op"]
+NESTED_OPS = ["matmul", "solve", "solve-left", "fsolve", "fsolve-left", "inv_quad", "iql", "sqrt_inv_matmul", "sqrt_inv_matmul-left"]
 EW_OPS = ["add-T", "sub-T", "mul-T", "add-Op", "mul-Op", "radd-T"]
 NONPSD = {"Permutation", "TransposePermutation", "Kernel", "Triangular", "KroneckerTriangular", "Matmul", "Zero", "Root", "LowRankRoot", "Mul"}
 
@@ -406,6 +470,17 @@ class Runner:
             f, g = (lambda: T @ op), (lambda: T @ D)
         elif opname == "solve":
             f, g = (lambda: op.solve(T)), (lambda: (need_sq(), D @ T)[1])
+        elif opname in ("solve-left", "fsolve", "fsolve-left", "sqrt_inv_matmul", "sqrt_inv_matmul-left"):
+            # a left tensor that FITS the right-hand side (2 x rows-of-T), so that only the operator can object
+            L = ones(tuple(T_shape[:-2]) + (2, T_shape[-2])) if len(T_shape) >= 2 else (ones((2, T_shape[0])) if len(T_shape) == 1 else ones((2, 1)))
+            left = opname.endswith("-left")
+            g = (lambda: (need_sq(), L @ (D @ T))[1]) if left else (lambda: (need_sq(), D @ T)[1])
+            if opname.startswith("solve"):
+                f = lambda: op.solve(T, L)
+            elif opname.startswith("fsolve"):
+                f = (lambda: linear_operator.solve(op, T, L)) if left else (lambda: linear_operator.solve(op, T))
+            else:
+                f = (lambda: op.sqrt_inv_matmul(T, L)) if left else (lambda: op.sqrt_inv_matmul(T))
         elif opname == "inv_quad":
             f, g = (lambda: op.inv_quad(T)), (lambda: (need_sq(), quad(D @ T))[1])
         elif opname == "iql":
@@ -479,6 +554,14 @@ def model_line(cls_name, definers, opname, shape, T_shape, mro_def):
             return f"mm diagEw {a} {shp(T_shape)}", "full"
         if d == "IdentityLinearOperator":
             return f"mm identity {a} {shp(T_shape)}", "full"
+    if opname in ("solve-left", "fsolve-left") and len(T_shape) >= 1:
+        d = mro_def(cls_name, "solve")
+        L = tuple(T_shape[:-2]) + (2, T_shape[-2]) if len(T_shape) >= 2 else (2, T_shape[0])
+        if d in ("LinearOperator", "LowRankRootAddedDiagLinearOperator", "KroneckerProductTriangularLinearOperator",
+                 "DiagLinearOperator", "IdentityLinearOperator"):
+            return f"solveleft {a} {shp(T_shape)} {shp(L)}", "full"
+    if opname == "fsolve" and mro_def(cls_name, "solve") in ("LinearOperator", "LowRankRootAddedDiagLinearOperator", "KroneckerProductTriangularLinearOperator"):
+        return f"solve {a} {shp(T_shape)}", "full"
     if opname == "inv_quad" and mro_def(cls_name, "inv_quad") == "LinearOperator":
         return f"invquad {a} {shp(T_shape)}", "okerr"
     if opname == "iql-cg" and mro_def(cls_name, "inv_quad_logdet") == "LinearOperator":
@@ -564,10 +647,17 @@ def gen_cases(chk, tier, collect=None):
         cls = getattr(O, cname, None)
         if cls is not None and m.split(":")[0] not in cls.__dict__:
             chk.proof_break("translator(C19Guards)", f"{cname}.{m} in table but not defined at run time")
+    for cname, m, _ in c19_guards.extract.delegations:
+        cls = getattr(O, cname, None)
+        if cls is not None and m not in cls.__dict__:
+            chk.proof_break("translator(C19Guards)", f"delegation table has {cname}.{m}, not defined at run time")
     for cname in ops_t:
         cls = getattr(O, cname, None)
         if cls is None:
             continue
+        for m in c19_guards.DELEG_METHODS:
+            if m in cls.__dict__ and not any(c == cname and mm == m for c, mm, _ in c19_guards.extract.delegations):
+                chk.proof_break("translator(C19Guards)", f"{cname}.{m} defined at run time but missing from the delegation table")
         for m in c19_guards.METHODS:
             if m in cls.__dict__ and not any(c == cname and mm == m for c, mm, _ in overrides):
                 chk.proof_break("translator(C19Guards)", f"{cname}.{m} defined at run time but missing from the table")
@@ -575,11 +665,17 @@ def gen_cases(chk, tier, collect=None):
     recs = []
     batches = [(), (2,)] if tier == "quick" else [(), (2,), (3,), (2, 1)]
     sizes = [3] if tier == "quick" else [3, 4]
+    todo = []
     for n in sizes:
         for b in batches:
             if n == 4 and b not in ((), (2,)):
                 continue
-            for key, op in instances(chk.rng, b, n=n):
+            todo += [(key, op, b, n, False) for key, op in instances(chk.rng, b, n=n)]
+    for b in ([(), (2,)] if tier == "quick" else [(), (2,), (3,), (2, 1)]):
+        todo += [(key, op, b, 6, True) for key, op in nested_instances(chk.rng, b)]
+    if True:
+        if True:
+            for key, op, b, n, nested in todo:
                 if isinstance(op, Exception):
                     chk.proof_break("catalogue", f"cannot construct {key} b={b}: {op!r}")
                     continue
@@ -588,15 +684,19 @@ def gen_cases(chk, tier, collect=None):
                 cname = class_name(op)
                 tagb = f"b={shp(b)}" + ("" if n == 3 else f"|n={n}")
                 plan = []
-                for opname in MM_OPS:
+                for opname in (NESTED_OPS if nested else MM_OPS):
                     side = "left" if opname == "rmatmul" else "right"
+                    if opname.startswith("sqrt_inv_matmul") and mro_def(cname, "sqrt_inv_matmul") == "LinearOperator":
+                        continue   # base sqrt_inv_matmul = contour-integral quadrature (iterative); only the overrides are swept
                     for kind, ts in matmul_kinds(shape, side):
                         if opname == "matmul-Op" and len(ts) < 2:
                             continue
+                        if opname.endswith("-left") and (len(ts) == 0 or (len(ts) == 1 and len(shape) > 2)):
+                            continue   # left tensor × batch of vectors: torch has no single reading of L @ (A^-1 r)
                         dbgs = (True, False) if opname in ("matmul", "matmul-Op", "solve") else (True,)
                         for dbg in dbgs:
                             plan.append((opname, kind, ts, dbg, None, None))
-                for opname in ("matmul-by-op", "tmatmul-by-op", "rmatmul-by-op"):
+                for opname in (() if nested else ("matmul-by-op", "tmatmul-by-op", "rmatmul-by-op")):
                     side = "left" if opname == "rmatmul-by-op" else "right"
                     for kind, rb, rk in operand_kinds(shape, side):
                         for rc in OPERAND_CLASSES:
@@ -604,20 +704,20 @@ def gen_cases(chk, tier, collect=None):
                                 continue
                             rshape = tuple(rb) + ((rk, rk) if rc not in ("Dense", "Zero") else ((rk, 2) if side == "right" else (2, rk)))
                             plan.append((opname, f"{rc}:{kind}", rshape, True, None, (rc, list(rb), rk)))
-                for opname in EW_OPS:
+                for opname in (() if nested else EW_OPS):
                     for kind, ts in ew_kinds(shape):
                         if opname.endswith("-Op") and len(ts) < 2:
                             continue
                         for dbg in ((True, False) if opname in ("add-T", "add-Op", "mul-Op") else (True,)):
                             plan.append((opname, kind, ts, dbg, None, None))
-                for kind, ts in diag_kinds(shape):
+                for kind, ts in ([] if nested else diag_kinds(shape)):
                     plan.append(("add_diagonal", kind, ts, True, None, None))
-                for kind, ts in expand_kinds(shape):
+                for kind, ts in ([] if nested else expand_kinds(shape)):
                     plan.append(("expand", kind, ts, True, None, None))
                     if all(x >= 0 for x in ts):
                         plan.append(("expand-size", kind, ts, True, None, None))
                 # cat along every dim with a Dense partner of matching / mismatching shape
-                for dim in range(-len(shape), 0):
+                for dim in ([] if nested else range(-len(shape), 0)):
                     good = list(shape); good[dim] = 2
                     bad1 = list(good); bad1[(dim + 1) % len(shape) - len(shape) if len(shape) > 1 else dim] += 1
                     dn = {-1: "col", -2: "row"}.get(dim, f"batch{len(shape) + dim}")
@@ -625,7 +725,7 @@ def gen_cases(chk, tier, collect=None):
                         plan.append(("cat", f"{dn}/ok", None, dbg, None, (dim, [tuple(good)])))
                         plan.append(("cat", f"{dn}/other-dim-plus", None, dbg, None, (dim, [tuple(bad1)])))
                         plan.append(("cat", f"{dn}/rank-plus", None, dbg, None, (dim, [(2,) + tuple(good)])))
-                for kind, idx in index_cases(shape):
+                for kind, idx in ([] if nested else index_cases(shape)):
                     for dbg in (True, False):
                         plan.append(("getitem", kind, None, dbg, idx, None))
                 for opname, kind, ts, dbg, idx, others in plan:
@@ -772,7 +872,10 @@ def replay(chk, payload):
     from linear_operator import settings
     ops_t, definers_l, overrides, base_guards = c19_guards.generate()
     rng = random.Random(0)
-    op = dict(instances(rng, tuple(pl["b"]), n=pl.get("n", 3)))[pl["key"]]
+    if pl.get("n", 3) == 6:
+        op = dict(nested_instances(rng, tuple(pl["b"])))[pl["key"]]
+    else:
+        op = dict(instances(rng, tuple(pl["b"]), n=pl.get("n", 3)))[pl["key"]]
     D = op.to_dense().to(F64)
     runner = Runner(dict(definers_l), None)
     others = pl.get("others")
